@@ -163,6 +163,17 @@ CLAIMS["C10"] = dict(
         "as the raw field (f64 multiply by 0.004 not modelled; the <= 1.0 test is raw <= 250).",
    technique="Lean 4 proof (field lemmas, omega on two's-complement arithmetic, cascade precedence) + model/implementation correspondence + independent register oracle", ref="5.10")
 
+CLAIMS["C18"] = dict(
+   text="PARTIAL. Lean 4 theorems (Props/C18.lean) about the retry loop over an environment trace {refuse, accept+bytes+eof/reset}: the loop shape "
+        "extracted from reader.rs on every run has no break/return/? and read_lines has no early exit; a refusal leaves the table untouched and "
+        "costs exactly one 5 s pause; after any fault prefix a successful connection is decoded by the ordinary line loop on the table the faults "
+        "left; a connection that delivers no accepted line leaves the table unchanged; a recently heard aircraft survives every later connection; "
+        "a partial last line before EOF is an ordinary line (C13 applies), after a reset it is dropped. Validated, not proved: that std's "
+        "TcpStream/BufReader/sleep and the kernel behave as the trace says - a scripted loopback peer plays fault sequences with real pauses.",
+   note="trusted: Lean kernel and standard axioms; tcp-shape extractor; harness loopback peer (RST via SO_LINGER 0). Modelled, not verified: socket "
+        "behaviour, thread scheduling, sleep duration (observed: reconnect after every fault, pause about 5 s per refusal).",
+   technique="Lean 4 proof about the loop's logic over environment traces (partial) + fault-sequence validation against the real loop on loopback sockets", ref="5.18")
+
 NOT_YET = "check not built yet in this revision; listed so that the manifest stays truthful while the framework grows"
 
 def main():
